@@ -583,7 +583,7 @@ func parseClauses(c *Contract, file string, body []rawLine) error {
 			} else {
 				c.Extra = append(c.Extra, cla)
 			}
-		case "trusted", "pure", "inline", "frame", "panics", "reveal", "abstract", "havoc", "returns", "note":
+		case "trusted", "pure", "inline", "frame", "panics", "reveal", "abstract", "havoc", "returns", "note", "effects":
 			if x.text == "" {
 				c.Flags[x.kw] = "yes"
 			} else {
